@@ -2,14 +2,16 @@
 CONSTANTS XKinds = {"none","lit","pdep"}
           YKinds = {"none","lit","pdep"}
           Aliases = {"none","pos","neg"}
-          Delays = {"none","par"}
-          Opts = {"base","aliases"}
-          Typed = {FALSE}
+          Delays = {"none"}
+          Opts = {"base","aliases","rpv"}
+          FKinds = {"none","pdep"}
+          Typed = {TRUE}
           Strs = {FALSE}
           Outs = {TRUE}
           SwapDepClasses = FALSE
           ForgetOutputs = FALSE
           DurDepsOffByOne = FALSE
+          ConstMXNotMX = FALSE
           TruthyOptions = FALSE
 INIT Init
 NEXT Next
